@@ -213,7 +213,8 @@ Theorem global_phase_reported c sched gs tab ph :
 Proof.
   unfold load. destruct (compile_gates c gs 0) as [[il p]|] eqn:E; cbn [rbind fst snd]; [|discriminate].
   intros H. assert (ph = p).
-  { destruct il; [discriminate|]. destruct (forallb _ _); [|discriminate].
+  { destruct il; [destruct load_accepts_empty; [injection H as _ <-; reflexivity|discriminate]|].
+    destruct (forallb _ _); [|discriminate].
     destruct (of_opt (to_instrs _)); cbn [rbind] in H; [|discriminate].
     destruct (of_opt (compile _ _ _)); cbn [rbind] in H; [|discriminate]. injection H as _ <-. reflexivity. }
   subst ph. split; [|repeat split]. rewrite (compile_gates_phase _ _ _ _ _ E). ring.
